@@ -209,6 +209,95 @@ func docxCell(c Cell) docxw.Cell {
 	return docxw.C(c.Lines...)
 }
 
+// docxChainStyles writes the basedOn chain of a heading source (one heading source per document:
+// the style sheet consists of Normal and the chain). No style is bold or large, so that tabula's
+// font-size fallback for documents without heading styles stays out of the picture.
+func docxChainStyles(h *headSrc) (styles []docxw.Style, own string) {
+	ids := make([]string, len(h.Chain))
+	for i, c := range h.Chain {
+		switch c.Kind {
+		case "builtin":
+			ids[i] = fmt.Sprintf("Heading%d", c.Level)
+		case "localized":
+			ids[i] = fmt.Sprintf("berschrift%d", c.Level)
+		case "outline":
+			ids[i] = fmt.Sprintf("CustHead%c", 'A'+i)
+		case "bare":
+			ids[i] = "Heading"
+		case "none":
+			ids[i] = fmt.Sprintf("PlainText%c", 'A'+i)
+		default:
+			panic("style kind " + c.Kind)
+		}
+	}
+	for i, c := range h.Chain {
+		st := docxw.Style{ID: ids[i], BasedOn: "Normal"}
+		if i+1 < len(ids) {
+			st.BasedOn = ids[i+1]
+		}
+		switch c.Kind {
+		case "builtin", "localized":
+			st.Name, st.Outline = fmt.Sprintf("heading %d", c.Level), c.Level
+		case "outline":
+			st.Name, st.Outline, st.Custom = fmt.Sprintf("Custom Head %c", 'A'+i), c.Level, true
+		case "bare":
+			st.Name = "Heading"
+		case "none":
+			st.Name, st.Custom = fmt.Sprintf("Plain Text %c", 'A'+i), true
+		}
+		styles = append(styles, st)
+	}
+	if len(ids) > 0 {
+		own = ids[0]
+	}
+	return
+}
+
+// odtChainStyles: the same for ODT (style:parent-style-name chain). A marker-free own style is
+// written as an automatic style (P1), the way LibreOffice stores direct formatting.
+func odtChainStyles(h *headSrc) (common, auto []odtw.Style, own string) {
+	names := make([]string, len(h.Chain))
+	for i, c := range h.Chain {
+		switch c.Kind {
+		case "builtin":
+			names[i] = fmt.Sprintf("Heading_20_%d", c.Level)
+		case "outline":
+			names[i] = fmt.Sprintf("CustHead%c", 'A'+i)
+		case "bare":
+			names[i] = "Heading"
+		case "none":
+			names[i] = fmt.Sprintf("Plain%c", 'A'+i)
+			if i == 0 {
+				names[i] = "P1"
+			}
+		default:
+			panic("style kind " + c.Kind)
+		}
+	}
+	for i, c := range h.Chain {
+		st := odtw.Style{Name: names[i], Parent: "Standard", Class: "text"}
+		if i+1 < len(names) {
+			st.Parent = names[i+1]
+		}
+		switch c.Kind {
+		case "builtin":
+			st.Display, st.OutlineLevel = fmt.Sprintf("Heading %d", c.Level), c.Level
+		case "outline":
+			st.Display, st.OutlineLevel = fmt.Sprintf("Custom Head %c", 'A'+i), c.Level
+		}
+		if c.Kind == "none" && i == 0 {
+			st.Class = ""
+			auto = append(auto, st)
+		} else {
+			common = append(common, st)
+		}
+	}
+	if len(names) > 0 {
+		own = names[0]
+	}
+	return
+}
+
 func renderDocx(w *work, d *Doc, o mdOpts) (string, map[string][]byte, error) {
 	var body []docxw.Block
 	styles := docxw.DefaultStyles()
@@ -220,6 +309,12 @@ func renderDocx(w *work, d *Doc, o mdOpts) (string, map[string][]byte, error) {
 	for _, blk := range d.Blocks {
 		switch x := blk.(type) {
 		case Heading:
+			if x.Src != nil {
+				st, own := docxChainStyles(x.Src)
+				styles = append([]docxw.Style{{ID: "Normal", Name: "Normal", Default: true, SizeHP: 22}, {ID: "ListParagraph", Name: "List Paragraph", BasedOn: "Normal"}}, st...)
+				body = append(body, docxw.Para{Style: own, Outline: x.Src.Direct, Content: []docxw.Inline{docxw.R(docxw.T(x.Text))}})
+				continue
+			}
 			body = append(body, docxw.Para{Style: fmt.Sprintf("Heading%d", x.Level), Content: []docxw.Inline{docxw.R(docxw.T(x.Text))}})
 		case Para:
 			body = append(body, docxw.P(x.Text))
@@ -302,11 +397,25 @@ func odtList(items []Item, depth int, style string) (odtw.List, int) {
 
 func renderOdt(w *work, d *Doc, o mdOpts) (string, map[string][]byte, error) {
 	var body []odtw.Block
+	styles := odtw.DefaultStyles()
+	var autoStyles []odtw.Style
 	var lstyles []odtw.ListStyle
 	seen := map[string]bool{}
 	for _, blk := range d.Blocks {
 		switch x := blk.(type) {
 		case Heading:
+			if x.Src != nil {
+				var own string
+				var common []odtw.Style
+				common, autoStyles, own = odtChainStyles(x.Src)
+				styles = append([]odtw.Style{{Name: "Standard", Class: "text"}, {Name: "Text_20_body", Display: "Text body", Parent: "Standard", Class: "text"}}, common...)
+				lv := x.Level
+				if x.Src.NoAttr {
+					lv = 0
+				}
+				body = append(body, odtw.Heading{Style: own, Level: lv, Content: []odtw.Inline{odtw.Text(x.Text)}})
+				continue
+			}
 			st := "Heading"
 			if x.Level <= 6 {
 				st = fmt.Sprintf("Heading_20_%d", x.Level)
@@ -345,7 +454,7 @@ func renderOdt(w *work, d *Doc, o mdOpts) (string, map[string][]byte, error) {
 	if lstyles == nil {
 		lstyles = odtw.DefaultListStyles()
 	}
-	ms := odtw.Members(odtw.Doc{Body: body}, odtw.Opts{Styles: odtw.DefaultStyles(), ListStyles: lstyles, Title: d.Title})
+	ms := odtw.Members(odtw.Doc{Body: body}, odtw.Opts{Styles: styles, AutoStyles: autoStyles, ListStyles: lstyles, Title: d.Title})
 	return w.viaFile("odt", stored(ms), o)
 }
 
